@@ -532,6 +532,22 @@
         assert!(pool.len() > 55, "{}", pool.len());
     }
 
+//# ob name=hashmap_backed_maps_native role=native_bounded fn="impl Ord/Hash for Value (maps)" kind=bounded bound="one pair: two std HashMap<String, i32> objects with the same 32 entries (separate RandomState, so different iteration orders)" stmt="equal maps compare as Equal and hash identically whatever order their keys are enumerated in"
+    fn hashmap_backed_maps_native() {
+        use std::collections::HashMap;
+        use std::hash::{Hash, Hasher};
+        let mk = || { let mut m: HashMap<String, i32> = HashMap::new(); for i in 0..32 { m.insert(format!("key{i}"), i); } Value::from_object(m) };
+        let h = |v: &Value| { let mut s = std::collections::hash_map::DefaultHasher::new(); v.hash(&mut s); s.finish() };
+        // different RandomStates give different iteration orders (retry a few times to make that certain)
+        let a = mk();
+        for _ in 0..20 {
+            let b = mk();
+            assert!(a == b);
+            assert!(a.cmp(&b) == Ordering::Equal, "two equal HashMap-backed maps are == but cmp says {:?}", a.cmp(&b));
+            assert!(h(&a) == h(&b), "two equal HashMap-backed maps hash differently");
+        }
+    }
+
 //# ob name=seq_vs_iterable_native role=native_bounded fn="impl Ord/PartialEq for Value" kind=bounded bound="one pair: the list [0, 2, 4] against a lazy iterable yielding 0, 2, 4" stmt="a == b iff cmp(a, b) is Equal also for a list against a lazy iterable with the same elements"
     fn seq_vs_iterable_native() {
         let a = Value::from(vec![Value::from(0), Value::from(2), Value::from(4)]);
